@@ -121,12 +121,16 @@ def run(coro_fn: Callable[..., Any], *args: Any, max_busy: int | None = None) ->
         loop.max_busy = max_busy
     _current[0] = loop
     asyncio.set_event_loop(loop)
+    stuck = False
     try:
         result = loop.run_until_complete(coro_fn(loop, *args))
         return result, loop
+    except KeyboardInterrupt:
+        stuck = True  # wall-clock alarm: the loop thread may still hold a library lock
+        raise
     finally:
         try:
-            pending = [t for t in asyncio.all_tasks(loop) if not t.done()]
+            pending = [] if stuck else [t for t in asyncio.all_tasks(loop) if not t.done()]
             for t in pending:
                 t.cancel()
             if pending:
